@@ -979,10 +979,17 @@ theorem c12_pybind_ok_iff (s : Sig) (nPos : ℕ) (kws : List String) :
       rw [hfs.mpr h1] at hc
       exact absurd hc (by simp)
 
-/-- **`calculate_ns_grad2` can be called**: the keywords used by the zero-ns Taylor statistic bind to
-every implementation in `llhratio.py` (current source) -/
+/-- **`calculate_ns_grad2` can be called**: the keywords of *every* call of `calculate_ns_grad2` in
+skyllh — in particular the one in the zero-ns Taylor statistic — bind to *every* definition of it
+(current source, all files under `skyllh/`; signatures with positional-only / keyword-only parameters or
+`*args` are refused by the extractor instead of being flattened) -/
 theorem c12_both_computable :
-    allBind Gen.C12.grad2Impls Gen.C12.grad2CallNPos Gen.C12.grad2CallKeywords = true := by
+    (Gen.C12.grad2Calls.all fun site => allBind Gen.C12.grad2Impls site.2.1 site.2.2) = true := by
+  decide +kernel
+
+/-- the call inside the Taylor statistic is among them (the obligation is not vacuous) -/
+theorem c12_taylor_call_is_checked :
+    (Gen.C12.grad2Calls.any fun site => site.1 == "LLHRatioZeroNsTaylorWilksTestStatistic.__call__") = true := by
   decide +kernel
 
 /-- **every test statistic can be called from every call site**: for each `calculate_test_statistic(...)`
